@@ -239,8 +239,11 @@ def workflow(draw):
             else:
                 comp["words"].append([it])
         # backend -----------------------------------------------------------------------------------------
-        b = draw(st.sampled_from(["local"] * 4 + ["k8s", "lsf", "lsf-noimg"]))
-        if b == "k8s":
+        b = draw(st.sampled_from(["local"] * 4 + ["k8s", "lsf", "lsf-noimg", "local-unused-image"]))
+        if b == "local-unused-image":
+            # the definition mentions a container image that the active (local) backend does not use
+            comp["backend"] = ["local", draw(st.sampled_from(IMAGES)), draw(st.sampled_from(["k8s", "lsf"]))]
+        elif b == "k8s":
             comp["backend"] = ["k8s", draw(st.sampled_from(IMAGES))]
         elif b == "lsf":
             comp["backend"] = ["lsf", draw(st.sampled_from(IMAGES))]
@@ -353,6 +356,9 @@ def render(W, extroot):
         elif b[0] == "lsf":
             d["resourceManager"] = {"config": {"backend": "lsf"},
                                     "lsf": {"dockerImage": b[1]} if b[1] else {"queue": "normal"}}
+        elif len(b) > 2 and b[1]:
+            d["resourceManager"] = {"config": {"backend": "local"}}
+            d["resourceManager"].update({"kubernetes": {"image": b[1]}} if b[2] == "k8s" else {"lsf": {"dockerImage": b[1]}})
         for k, v in c["extra"].items():
             if isinstance(v, dict) and isinstance(d.get(k), dict):
                 for k2, v2 in v.items():
@@ -595,7 +601,8 @@ def mutation(draw, W):
         m.update(stage=draw(st.integers(0, comps[-1]["stage"])), exe=draw(st.sampled_from(EXES)))
     elif k == "image":
         cur = c["backend"]
-        cands = [["local"], ["lsf", None]] + [[b, img] for b in ("k8s", "lsf") for img in IMAGES]
+        cands = [["local"], ["lsf", None]] + [[b, img] for b in ("k8s", "lsf") for img in IMAGES] + \
+                [["local", img, kind] for kind in ("k8s", "lsf") for img in IMAGES]     # image defined but unused
         cur_img = cur[1] if len(cur) > 1 else None
         # a change of the *image* (a move between backends with the same image is "resources")
         cands = [x for x in cands if (x[1] if len(x) > 1 else None) != cur_img]
